@@ -547,7 +547,28 @@ def r06h(run):
                 and unparse(n.ast.targets[0].value) == "self" and n.ast.targets[0].attr in (
                     "field_alias_map", "attr_alias_map", "case_insensitive_names") and isinstance(n.ast.value, ast.Name):
             published[n.ast.targets[0].attr] = (n, n.ast.value.id)
-    run.floor("R06h", "alias tables published by generate_aliases", len(published), 3)
+    TABLES = ("field_alias_map", "attr_alias_map", "case_insensitive_names")
+    merged = []
+    for n in fa.cfg.nodes:
+        if n.kind != "stmt":
+            continue
+        for c in fa.calls_at(n):
+            if isinstance(c.func, ast.Attribute) and c.func.attr in ("update", "add", "setdefault", "__setitem__") \
+                    and isinstance(c.func.value, ast.Attribute) and unparse(c.func.value.value) == "self" \
+                    and c.func.value.attr in TABLES:
+                merged.append((n, c.func.value.attr, unparse(c)[:60]))
+        tg = n.ast.targets[0] if isinstance(n.ast, ast.Assign) else n.ast.target if isinstance(n.ast, ast.AugAssign) else None
+        base = tg.value if isinstance(tg, ast.Subscript) else tg if isinstance(n.ast, ast.AugAssign) else None
+        if isinstance(base, ast.Attribute) and unparse(base.value) == "self" and base.attr in TABLES:
+            merged.append((n, base.attr, norm_stmt(n.ast)[:60]))
+    for n, attr, txt in merged:
+        run.check("R06h", f, f"`self.{attr}` is replaced, not merged into", False,
+                  construct=f"alias table {attr} merged into the existing one",
+                  message=f"generate_aliases publishes into the existing table: `{txt}` keeps whatever self.{attr} held "
+                          f"before (the tables of the base class parser this parser was copied from)",
+                  necessity="aliases of a field the subclass re-declared survive in the table: the data-first strategy "
+                            "still resolves them, the field-first strategy does not", node=n.ast)
+    run.floor("R06h", "alias tables published by generate_aliases", len(published) + len({a for _, a, _ in merged}), 3)
     for attr, (n, local) in sorted(published.items()):
         inits = [d for d in fa.cfg.nodes if d.kind == "stmt" and isinstance(d.ast, ast.Assign)
                  and unparse(d.ast.targets[0]) == local]
